@@ -96,15 +96,20 @@ class QuietLogger:
 
 
 class SimTmp:
+    """The heartbeat file as the master sees it.  The object life cycle (open / closed, what a call on a closed one
+    raises) is the real gunicorn.workers.workertmp.WorkerTmp's; only the time stamp it reports is the simulated one."""
+
     def __init__(self, worker):
         self.worker = worker
         self.closed = False
+        self.real = None
 
     def last_update(self):
         k = _KERNEL
         p = k.proc_of(self.worker)
         if self.closed:
-            raise ValueError("I/O operation on closed file")
+            self.real.last_update()      # raises what the real object raises once it is closed
+            raise AssertionError("simkernel: last_update() on a closed WorkerTmp returned")
         if p is None:
             return k.now
         if not p.alive:
@@ -114,10 +119,24 @@ class SimTmp:
         return k.heartbeat_of(p)
 
     def close(self):
+        if self.real is None:
+            # a real WorkerTmp over a throw-away descriptor (its __init__ only creates the file, which the simulated
+            # kernel does not model; creating real temp files per simulated worker costs 4x the run time)
+            from gunicorn.workers.workertmp import WorkerTmp
+            self.real = WorkerTmp.__new__(WorkerTmp)
+            self.real._tmp = open(real_os.devnull, "w+b", 0)
         self.closed = True
+        return self.real.close()
 
     def fileno(self):
         return -1
+
+    def __del__(self):
+        try:
+            if self.real is not None and self.real._tmp is not None:
+                self.real._tmp.close()
+        except Exception:
+            pass
 
 
 class SimWorker:
